@@ -19,3 +19,19 @@ class Validation:
                   "Field {}: $ after ".format(str(fn))+
                   "non-last position ({})\n".format(str(pos))+
                   "Segment: {}".format(str(seg)))
+
+  def _validate_record_type_specific_info(self):
+    "Checks that begin <= end and that $ is consistently used in each interval"
+    for pfx in ["s_", "f_"]:
+      beg = self.get(pfx+"beg")
+      end = self.get(pfx+"end")
+      if gfapy.posvalue(beg) > gfapy.posvalue(end):
+        raise gfapy.ValueError(
+          "Line: {}\n".format(str(self))+
+          "begin > end: {} > {}".format(gfapy.posvalue(beg),
+                                        gfapy.posvalue(end)))
+      if gfapy.islastpos(beg) and not gfapy.islastpos(end):
+        raise gfapy.FormatError(
+          "Line: {}\n".format(str(self))+
+          "Wrong use of $ marker\n"+
+          "{} >= {}$".format(gfapy.posvalue(end), gfapy.posvalue(beg)))
